@@ -248,6 +248,9 @@ def run(ctx: Ctx) -> None:
 
     c06.run(Alias(ctx, "C01.R10", "pipelined requests: the parked reader is released only after the finished stream was torn down (C06.R3/R4), otherwise a buffered request is never started or loses its body", only={"C06.R3", "C06.R4"}))
 
+    from . import c16
+
+    c16.run(Alias(ctx, "C01.R11", "both workers realise the same read loop, application wrapper and bounded application queue (C16 skeletons for TCPServer._read_data, _handle, TaskGroup.spawn_app): a one-sided edit changes what one worker delivers", only={"C16.R2"}, where=["TCPServer._read_data", ":_handle", "TaskGroup.spawn_app"]))
     from . import typestate_rules
 
     typestate_rules.run_for(ctx, "C01")
